@@ -16,7 +16,11 @@ NPOS = (1 << 64) - 1
 RULE = ("per operation: exhaustive over strings of length 0..4 over {a,b} x patterns of length 0..3 (all self-overlapping patterns "
         "aa, aba, abab, empty pattern, pattern longer than the string), strings over the alphabet {a,b,A,B,.,blank,\\n,\\t,0x01,0x7f,0x80,0xff,digits} "
         "of length 0..12 and 100..5000, every position/amount in -1..len+2 plus SIZE_MAX and 2^63, characters incl. the alphabet, 0 and absent ones, "
-        "caller buffers of size 0,1,len,len+1,len+2; non-trivial = at least one argument string is non-empty or a position is out of range")
+        "caller buffers of size 0,1,len,len+1,len+2; EVERY byte value 1..255 at every place a character predicate (isSpace, isDigit, isUpper, isControl, "
+        "short-escape, ToLower) looks at it: AtoI/AtoU on [c,7], [7,c,3], [blank,c,7], [sign,c,5], lowerCase/printable of [c], equalsNoCase/containsNoCase of c against "
+        "c^0x20; AtoI/AtoU on sign/blank/digit boundary strings (empty, lone and double signs, every C blank, 0x08/0x0E, '/' and ':', leading zeros, 9 digits, "
+        "INT_MAX, UINT_MAX) and random blank-sign-digits-junk strings whose digit run fits the result type; "
+        "non-trivial = at least one argument string is non-empty or a position is out of range")
 ASSUMPTIONS = ["byte strings without embedded NUL (C strings)", "LP64, size_t = 64 bit", "AtoI/AtoU: the digit string read fits the result type (int / unsigned; every run of at most 9 digits does) -- beyond that AtoI is signed overflow: same contract as atoi",
                "StrNCpy/copyToBuffer/MemCmp are called with buffers at least as large as their contract requires"]
 ALPHA = [0x61, 0x62, 0x41, 0x42, 0x2e, 0x20, 0x0a, 0x09, 0x01, 0x7f, 0x80, 0xff, 0x31, 0x5a, 0x5b, 0x40, 0x7a, 0x0d, 0x07, 0x1f]
@@ -83,7 +87,8 @@ def gen_ops(ops, tier, rng):
     nr = 400 if tier == "quick" else 20000
     for _ in range(nr):
         big = rng.random() < 0.03
-        a = rstr(rng, 100, 5000 if tier == "thorough" else 600, [0x61, 0x62, 0x41, 0x0a]) if big else rstr(rng)
+        # long strings: the bounds-checked model is quadratic in the length (every write rebuilds the buffer list), so few very long ones
+        a = rstr(rng, 100, (5000 if rng.random() < 0.05 else 1500) if tier == "thorough" else 600, [0x61, 0x62, 0x41, 0x0a]) if big else rstr(rng)
         p = related(rng, a)
         for op in [o for o in PAIR_OPS if o in ops]:
             if rng.random() < 0.5:
